@@ -242,6 +242,52 @@ func C16(c *Ctx) {
 				r.Bad("C16.recover-eq", name, op.String(), posf(c, op.Call), "recover start touches the session/cookies itself: visible only for existing accounts or only for unknown ones")
 			}
 		}
+		// the mail is sent for existing accounts only: whether it could be
+		// delivered must not show in the answer (an error page instead of the
+		// usual redirect tells the client the account exists)
+		reachesMail := func(f *ssa.Function) bool {
+			seen := map[*ssa.Function]bool{}
+			var visit func(f *ssa.Function, d int) bool
+			visit = func(f *ssa.Function, d int) bool {
+				if f == nil || seen[f] || d > 3 {
+					return false
+				}
+				seen[f] = true
+				for _, call := range Calls(f) {
+					cn := Callee(call)
+					if cn == "(*ab.Authboss).Email" || cn == "(ab.Mailer).Send" {
+						return true
+					}
+					if g := StaticCallee(call); g != nil && c.inRepo(g) && visit(g, d+1) {
+						return true
+					}
+				}
+				return false
+			}
+			return visit(f, 0)
+		}
+		for _, call := range Calls(sp) {
+			if _, isGo := call.(*ssa.Go); isGo {
+				continue
+			}
+			cn := Callee(call)
+			g := StaticCallee(call)
+			if !(cn == "(*ab.Authboss).Email" || cn == "(ab.Mailer).Send" || (g != nil && c.inRepo(g) && reachesMail(g))) {
+				continue
+			}
+			if ErrResult(call) == nil {
+				r.Ok("C16.recover-mail", name, cn, posf(c, call), "the mail step hands no error back to the handler")
+				continue
+			}
+			k, _ := c.errHandling(call)
+			leaks := k == "returned"
+			if k == "tested" {
+				if p, _ := c.errPropagated(call); p {
+					leaks = true
+				}
+			}
+			r.Check(!leaks, "C16.recover-mail", name, cn+".err", posf(c, call), "a delivery failure does not change the answer", "the error of the mail step is handed back to the client: a recovery request for an existing account whose mail cannot be delivered is answered by an error, one for an unknown account by the usual redirect")
+		}
 		// validation happens before the look-up
 		for _, call := range CallsTo(sp, fnRespond) {
 			for _, l := range CallsTo(sp, fnLoad) {
